@@ -191,6 +191,55 @@ CHECKS = [
               "material constants converted to any unit system convert back to their SI values.",
          note="Only the unit-algebra sentences of the property are covered: the last sentence (a scaled flow simulation gives the same SI solution) has no discrete "
               "reference and is NOT claimed. Time scaling is 1 (the code rejects others); floats only."),
+    dict(id="C01", level=TV, technique="TLC enumerates AD programs of depth <= 2 (3 by simulation) and computes value and Jacobian with the dual-number "
+         "semantics of spec/ref/AdAlgebra.tla (exact rationals / symbolic terms); real AdArray results judged by TLC (J_AdAlgebra)",
+         text="Every well-typed program over + - * / ** unary-, sparse @, row slicing, maximum and the function library, with AdArray / float / int / ndarray / "
+              "sparse operands on either side, at rational points of 1-3 variables, is executed on real AdArrays from initAdArrays; rational entries are compared "
+              "exactly, term-valued entries against a porepy-free numpy evaluation of the term TLC built by the chain rule. The dual-number closed forms are "
+              "checked against the ring axioms by TLC; the calculus table is cross-validated by central differences on every run.",
+         note="Transcendental values are compared under the tolerance policy of DESIGN section 8 (<= 1e-9 pass, > 1e-6 violation, between inconclusive; 0 "
+              "inconclusive observed). Kinks/ties and ill-conditioned arguments are outside the family (counted per reason). The calculus table is trusted base."),
+    dict(id="C02", level=MC, technique="TLC enumerates the typed operator-expression space (spec/ref/OperatorTreeEnum.tla) with Python dispatch, node building, the parser's "
+         "case analysis and the direct reference semantics (OperatorTree.tla); real evaluation through EquationSystem judged against direct AdArray evaluation (J_OperatorTree)",
+         text="All well-typed expressions of depth <= 1 over 27 leaves (variables and md-variables in current / previous-time / previous-iterate states, Scalar, Dense/"
+              "SparseArray, TimeDependentDenseArray, Projection(List), raw float / int / ndarray / sparse operands on either side), all six operators in both orders, "
+              "function wrappers and shifts of composites (depth 2-3 sampled) are built with the real overloads, evaluated with and without derivatives through three "
+              "entry points and compared with the program TLC derives for direct forward-mode evaluation: value, Jacobian, value-only agreement, previous time/iterate "
+              "sub-expressions evaluate to stored values with no derivative. Design laws (Parse(Build(e)) agrees with Direct(e)) are checked on the whole space.",
+         note="Exact comparison on rationals with denominator <= 1000, tolerance policy otherwise. Variables on interfaces and unary minus are not generated; the built "
+              "tree vs the Build model is conformance only (DRIFT)."),
+    dict(id="C11", level=EX, technique="TLC enumerates grids x integer SPD tensors x boundary masks (spec/ref/FvOracleEnum.tla), computes the exact Darcy fluxes of linear fields "
+         "(FvOracle.tla on GridGeom) and judges pp.Mpfa's output (J_FvOracle)",
+         text="Black-box exact oracle: on Cartesian, simplex, non-uniform, perturbed and sheared integer-coordinate grids in 2D/3D, flux * p + bound_flux * bc must equal "
+              "-(n_f . K g) on every face, a constant pressure gives zero flux and the boundary pressure reconstruction returns p(x_f); the oracle's own laws (per-cell "
+              "flux balance) are checked by TLC.",
+         note="The local interaction-region mechanism is not modelled. Doubles are compared with the exact rationals under the tolerance policy (0 inconclusive). One known "
+              "finding: singular one-cell corner region (exact predicate DegenerateCorners). Default mpfa_eta only."),
+    dict(id="C12", level=TV, technique="TLC holds a transcription of the TPFA kernel as rational matrices (TpfaRef in spec/ref/FvOracle.tla) and judges porepy's flux, bound_flux and "
+         "bound_pressure matrices entrywise plus the structural clauses (J_FvOracle)",
+         text="For any valid grid and per-cell SPD tensor: div * flux symmetric, single-valued face flux, zero flux for constants (evaluated by TLC on porepy's own matrices); on "
+              "Cartesian/tensor grids with diagonal K: M-matrix signs, entrywise agreement with MPFA, exactness for linear fields with constant K, and entrywise equality "
+              "with TpfaRef on K-orthogonal configurations (elsewhere a difference from the transcription is DRIFT).",
+         note="Reference comparison skipped where 32-bit guards fail (counted). Faces whose half transmissibilities cancel exactly are counted, not judged for ConstantZero."),
+    dict(id="C18", level=EX, technique="TLC enumerates simplex grids (optionally embedded by rational rigid motions), tensors and linear fields and judges RT0 / MVEM solutions against the "
+         "exact fluxes and pressures (J_FvOracle)",
+         text="Black-box exact oracle: with Dirichlet data from a linear pressure, extract_flux / extract_pressure must give the exact face fluxes and cell-centre pressures on "
+              "1D-3D simplex grids; mass matrices symmetric and positive definite.",
+         note="Positive definiteness (Cholesky succeeds) and the 1e-12 symmetry fallback are float predicates relayed to TLC. The local mass-matrix mechanism is not modelled."),
+    dict(id="C13", level=EX, technique="TLC enumerates grids, Lame parameters, displacement gradients and admissible boundary assignments (spec/ref/MechOracleEnum.tla), computes exact "
+         "tractions (MechOracle.tla) and judges pp.Mpsa's output (J_MechOracle)",
+         text="Black-box exact oracle: stress * u + bound_stress * bc equals (2 mu sym(G) + lambda tr(G) I) n_f on every non-Neumann face for all-Dirichlet data, any 2D "
+              "Dirichlet/Neumann mix and 3D mixes without two Neumann faces sharing an edge (admissibility computed by TLC on the incidence); translations give zero traction; "
+              "boundary displacement reconstruction exact on Dirichlet faces.",
+         note="Tolerance policy for doubles (0 inconclusive). Thorough also runs the split path and both local inverters. Boundary assignments sampled."),
+    dict(id="C15", level=EX, technique="TLC computes exact div(u)|c| and -alpha p n_f on enumerated grids (MechOracle.tla) and judges the Biot coupling matrices (J_MechOracle)",
+         text="div_u and bound_div_u applied to a linear displacement give tr(G)|c| per cell; scalar_gradient applied to a constant pressure gives -alpha p n_f per face and "
+              "component, for scalar and tensor coupling coefficients, with Dirichlet mechanical data.",
+         note="Black-box oracle; tolerance policy for doubles."),
+    dict(id="C16", level=EX, technique="TLC enumerates grids and translations; zero TPSA stress and the solved translation judged (J_MechOracle)",
+         text="A uniform displacement with matching Dirichlet data gives zero stress on every face; solving the assembled TPSA system returns the translation with zero rotation "
+              "and solid pressure (within 1e-8) on Cartesian, simplex and perturbed grids in 2D/3D with Dirichlet or mixed data.",
+         note="Mixed-boundary systems with condition number >= 1e6 are excluded from the solve clause (counted); the linear solve is a black box; lambda > 0."),
 ]
 
 _NOT_BUILT = "check not built yet (planned, DESIGN.md section 10); not claimed until its commands are green on the unchanged tree"
